@@ -176,6 +176,24 @@ def _stepping(ck, P, cfg):
         ck.holds("C08.2", "drain-loop:timer", forced[0].where, "gvt_timer is reset before each flushing round: the round starts at once, whatever the configured period", cfg)
     elif last:
         ck.violated("C08.2", "drain-loop:timer", last[-1].where, "the flushing rounds wait for the configured GVT period to elapse (the timer is not forced): with a long period the shutdown takes unboundedly long", cfg)
+    # one flushing round per message colour: remote messages of BOTH colours can still be in flight when the ranks leave their main loops
+    if last:
+        outer = last[-1].parent
+        while outer is not None and outer.k != "ForStmt":
+            outer = outer.parent
+        inst = "drain-loop:both-colours"
+        if outer is None:
+            ck.inconclusive("C08.2", inst, last[-1].where, "the flushing rounds are not in a counted loop", cfg)
+        else:
+            iv = [x for x in outer.children[0].walk() if x.k == "VarDecl"]
+            got = rules_cover.for_indices(outer, iv[0].name, {}) if iv else None
+            if got is None or got == "runaway":
+                ck.inconclusive("C08.2", inst, outer.where, "number of flushing rounds not evaluable", cfg)
+            elif len(got) < 2:
+                ck.violated("C08.2", inst, outer.where, "%d flushing round(s) at shutdown: a GVT round counts the messages of ONE colour, so messages of the other colour can remain in flight "
+                            "when MPI is finalised (or a rank keeps waiting for them)" % len(got), cfg)
+            else:
+                ck.holds("C08.2", inst, outer.where, "%d flushing rounds: one per message colour" % len(got), cfg)
     # both receive paths dispatch control messages
     for fname in ("mpi_remote_msg_handle", "mpi_remote_msg_drain"):
         h = P.fn(fname)
